@@ -108,10 +108,21 @@ JudgePdfP(e) ==
        THEN "P:gm-logpdf"
   ELSE "ok"
 
+\* ---- (e) off the lattice: a full (correlated) covariance matrix.  No integer oracle exists; the harness logs, next to
+\* the code's log pdf / logpdf, the log of sum_i w_i N(x; m_i, Sigma) evaluated from the definition with numpy
+\* (solve + slogdet; T4 oracle field, 10^-6 fixed point).  TLC judges the relation.
+JudgeGmoP(e) ==
+  IF e.res # "val" THEN "P:gm-call-raised"
+  ELSE IF Len(e.lp) # Len(e.o) \/ Len(e.lq) # Len(e.o) THEN "P:count"
+  ELSE IF \E p \in 1..Len(e.o) : Abs(e.lp[p] - e.o[p]) > 5 + Abs(e.o[p]) \div 100000000 THEN "P:gm-pdf"
+  ELSE IF \E p \in 1..Len(e.o) : Abs(e.lq[p] - e.o[p]) > 5 + Abs(e.o[p]) \div 100000000 THEN "P:gm-logpdf"
+  ELSE "ok"
+
 JudgeP(e) == CASE e.ev = "wq" -> JudgeWqP(e)
                [] e.ev = "wvar" -> JudgeVarP(e)
                [] e.ev = "ess" -> JudgeEssP(e)
                [] e.ev = "pdf" -> JudgePdfP(e)
+               [] e.ev = "gmo" -> JudgeGmoP(e)
                [] OTHER -> "X:unknown-event"
 JudgeM(e) == CASE e.ev = "wq" -> JudgeWqM(e)
                [] e.ev = "wvar" -> JudgeVarM(e)
